@@ -565,13 +565,13 @@ fn emit_name_section(cx: &mut EmitContext) {
         .module
         .funcs
         .iter()
-        .filter_map(|func| cx.locals.get(&func.id()).map(|l| (func, l)))
+        // every local that got an index is emitted: all parameters (used or not) and the used locals
+        .filter_map(|func| cx.indices.locals.get(&func.id()).map(|l| (func, l)))
         .filter_map(|(func, locals)| {
             let local_names = locals
                 .iter()
-                .filter_map(|id| {
+                .filter_map(|(id, index)| {
                     let name = cx.module.locals.get(*id).name.as_ref()?;
-                    let index = cx.indices.locals.get(&func.id())?.get(id)?;
                     Some((*index, name))
                 })
                 .collect::<Vec<_>>();
